@@ -28,6 +28,11 @@ def strings_for(spec):
         for i, s in enumerate(glex.long_runs()):
             if i % spec["nshards"] == spec["shard"]:
                 yield s
+    elif mode == "grammar":
+        yield from glex.grammar(spec["maxlen"], spec["shard"], spec["nshards"])
+        r = random.Random("%s/grammar/%d" % (spec.get("seed"), spec["shard"]))
+        yield from glex.grammar_sample(r, spec.get("sample", 0), spec["maxlen"] + 1)
+        yield from glex.grammar_sample(r, spec.get("sample", 0) // 2, spec["maxlen"] + 3)
     elif mode == "list":
         yield from spec["items"]
     else:
